@@ -28,6 +28,40 @@ import pandas.api.types as ptypes
 
 from harness import common as C
 
+# Clause-by-clause coverage of the property text (properties.jsonl C18): clause -> oracle key(s) -> generator.
+CLAUSES = [
+    ("inference is a deterministic function of the column's non-missing values",
+     "variant:<family> (identity / missing-added variants re-run the same values)", "series: every family, variants"),
+    ("float columns infer numerical", "table:float:*", "series family float (default / float32 / Float64 backing)"),
+    ("booleans ... categorical", "table:bool:*", "series family bool (numpy bool, object with missing, boolean)"),
+    ("low-cardinality repeated integers ... categorical (else numerical)", "table:int:*",
+     "series family int, multiplicities 1..7 (int64 / Int64 / int32 / int8 / uint8, float64 when missing)"),
+    ("low-cardinality repeated ... strings categorical", "table:strcat:*", "series family strcat x object/str/string"),
+    ("parseable dates timestamp", "table:date:*, table:datex:*, date-format-inference-order-dependent (known finding)",
+     "series families date (explicit formats) and datex (guessed / mixed formats)"),
+    ("lists of equal-length finite floats embedding", "table:emb:*", "series family emb"),
+    ("other numeric lists numerical sequence", "table:seqnum:*", "series family seqnum (ragged / int / nan / inf)"),
+    ("lists of strings ... multicategorical", "table:strlist:*", "series family strlist"),
+    ("delimiter-joined repeated tokens multicategorical", "table:multicat:*",
+     "series family multicat (seps | , ; /, token multiplicities 2..6, padding, duplicates in a row)"),
+    ("free text text-embedded", "table:text:*, table:strcat:* / table:multicat:* below the threshold",
+     "series families text, strcat, multicat"),
+    ("an all-missing column is skipped", "table:allmissing:*, df:table, df:not-per-column",
+     "series family allmissing; df columns allmissing"),
+    ("unchanged by permuting the rows", "variant:<family>", "variants with perm (thorough: ALL permutations, n <= 5)"),
+    ("unchanged by relabeling the index", "variant:<family>",
+     "variants with labels offset / perm / string / dup / multi / datetime / float; Series name None/str/int"),
+    ("unchanged by adding missing cells to a string- or list-valued column", "variant:<family>",
+     "variants with add (None / np.nan / float('nan') / pd.NA), also for int and bool columns"),
+    ("frame-level inference is exactly the per-column inference over the columns that yield a type",
+     "df:not-per-column, df:table, df:raised", "df cases (concat / dict / assign built, str / int / tuple labels, "
+     "blank rows, single column), positional and keyword call, module and torch_frame.utils entry point"),
+    ("quantifier: both pandas string representations", "table:* on sdtype object and str (plus nullable string)",
+     "sdtype in every string family"),
+    ("quantifier: both sides of the frequency threshold (4 vs 5)", "table:int / strcat / multicat",
+     "_counts(): min multiplicity 1..7 weighted to 4 and 5; sanity() fails closed if 4 or 5 is not drawn"),
+]
+
 PROP = "C18"
 HEADER = "Require Import Coq.QArith.QArith PF.Gen.Tables PF.Model.Infer."
 MODEL_TARGETS = ["Model/Infer.vo"]
@@ -341,9 +375,17 @@ FAM_WEIGHTS = [(2, "float"), (4, "int"), (1, "bool"), (2, "date"), (4, "strcat")
 
 
 def gen_labels(rng, n):
-    t = rng.pick(["default", "offset", "perm", "string", "dup"])
+    t = rng.pick(["default", "offset", "perm", "string", "dup", "dup", "multi", "datetime", "float"])
     if t == "default":
         return {"t": t}
+    if t == "multi":
+        return {"t": t, "v": [[rng.randint(0, 2), i] for i in range(n)]}
+    if t == "datetime":
+        v = list(range(n))
+        rng.shuffle(v)
+        return {"t": t, "v": v}
+    if t == "float":
+        return {"t": t, "v": [i + 0.5 for i in range(n)]}
     if t == "offset":
         o = rng.randint(1, 50)
         return {"t": t, "v": list(range(o, o + n))}
@@ -374,10 +416,42 @@ def gen_variant(rng, fam, n, perm=None):
 def gen_series_case(rng, tier, fam=None):
     fam = fam or rng.wpick(FAM_WEIGHTS + [(0.7, "mixed"), (1.0, "datex")])
     cells = SERIES_ONLY[fam](rng) if fam in SERIES_ONLY else FAMILIES[fam](rng)
-    sd = rng.pick(["object", "str"]) if fam in STR_FAMS + ("datex",) else None
+    sd = rng.pick(["object", "str", "string"]) if fam in STR_FAMS + ("datex",) else None
     n = len(cells)
-    vs = [gen_variant(rng, fam, n) for _ in range(rng.randint(2, 4))]
-    return {"kind": "series", "family": fam, "sdtype": sd, "cells": cells, "variants": vs}
+    # the representation pandas holds the column in (non-default backings away from the default 40 % of the time)
+    backing = None
+    has_m = any(c[0] == "m" for c in cells)
+    if fam == "int" and rng.chance(0.4):
+        opts = ["Int64"] + ([] if has_m else ["int32", "int8"] + (["uint8"] if all(c[1] >= 0 for c in cells) else []))
+        backing = rng.pick(opts)
+    elif fam == "float" and rng.chance(0.4):
+        backing = rng.pick(["Float64"] + ([] if has_m else ["float32"]))
+    elif fam == "bool" and rng.chance(0.4):
+        backing = "boolean"
+    fixed = backing in ("int32", "int8", "uint8", "float32")            # no missing cell can be added
+    vs = [gen_variant(rng, "float" if fixed else fam, n) for _ in range(rng.randint(2, 4))]
+    # every way of writing a missing cell that the representation admits
+    kinds = ["none", "nan", "fnan"]
+    if fam in STR_FAMS + LIST_FAMS + ("datex", "bool", "allmissing") or backing in ("Int64", "Float64", "boolean"):
+        kinds.append("na")
+    if fam == "allmissing":
+        kinds = ["none", "nan"]
+    for c in cells:
+        if c[0] == "m" and rng.chance(0.5):
+            c[1] = rng.pick(kinds)
+    for v in vs:
+        for a in v["add"]:
+            if rng.chance(0.5):
+                a[1] = rng.pick(kinds)
+    rp = {"backing": backing, "name": rng.pick([None, None, "col", 7]), "call": rng.pick(["pos", "kw"]),
+          "alias": rng.pick(["module", "utils"])}
+    return {"kind": "series", "family": fam, "sdtype": sd, "cells": cells, "variants": vs, "rep": rp}
+
+
+def _df_rep(rng, ncols):
+    return {"build": rng.pick(["concat", "dict", "assign"]), "call": rng.pick(["pos", "kw"]),
+            "alias": rng.pick(["module", "utils"]),
+            "labels": [rng.pick(["str", "str", "int", "tuple"]) for _ in range(ncols)]}
 
 
 def gen_df_case(rng, tier):
@@ -395,7 +469,7 @@ def gen_df_case(rng, tier):
             cells = [cells[i % len(cells)] for i in range(n)]
         sd = rng.pick(["object", "str"]) if fam in STR_FAMS else None
         cols.append({"name": nm, "family": fam, "sdtype": sd, "cells": cells})
-    return {"kind": "df", "columns": cols, "labels": gen_labels(rng, n)}
+    return {"kind": "df", "columns": cols, "labels": gen_labels(rng, n), "rep": _df_rep(rng, len(cols))}
 
 
 def _strip_missing(cells):
@@ -442,7 +516,8 @@ def gen_df_blank_case(rng, tier):
     for nm, (fam, cells) in zip(names, cols):
         sd = rng.pick(["object", "str"]) if fam in STR_FAMS else None
         out.append({"name": nm, "family": fam, "sdtype": sd, "cells": cells})
-    return {"kind": "df", "blank_rows": nblank, "columns": out, "labels": gen_labels(rng, m)}
+    return {"kind": "df", "blank_rows": nblank, "columns": out, "labels": gen_labels(rng, m),
+            "rep": _df_rep(rng, len(out))}
 
 
 def exhaustive_small(rng):
@@ -469,6 +544,16 @@ def generate(rng, tier):
     for fam in FAMILIES:                       # every family is present in every run
         cases += [gen_series_case(rng, tier, fam) for _ in range(4)]
     cases += [gen_series_case(rng, tier, "datex") for _ in range(4)]
+    for fam, b in (("int", "Int64"), ("int", "int32"), ("int", "int8"), ("int", "uint8"), ("float", "Float64"),
+                   ("float", "float32"), ("bool", "boolean")):      # every backing is present in every run
+        got = 0
+        for _try in range(400):
+            c = gen_series_case(rng, tier, fam)
+            if c["rep"]["backing"] == b:
+                cases.append(c)
+                got += 1
+                if got == 3:
+                    break
     cases += [gen_df_blank_case(rng, tier) for _ in range(12)]      # always present
     for _ in range(n):
         r = rng.random()
@@ -505,7 +590,17 @@ def py_cell(c):
         return c[1]
     if t == "l":
         return [py_elem(e) for e in c[1]]
-    return None if c[1] == "none" else float("nan")
+    return {"none": None, "nan": np.nan, "fnan": float("nan"), "na": pd.NA}[c[1]]
+
+
+def make_index(labels):
+    if labels is None or labels["t"] == "default":
+        return None
+    if labels["t"] == "multi":
+        return pd.MultiIndex.from_tuples([tuple(x) for x in labels["v"]]) if labels["v"] else None
+    if labels["t"] == "datetime":
+        return pd.to_datetime("2020-01-01") + pd.to_timedelta(labels["v"], unit="D")
+    return labels["v"]
 
 
 def variant_cells(cells, v):
@@ -515,12 +610,16 @@ def variant_cells(cells, v):
     return out
 
 
-def build_series(cells, sdtype, labels, name=None):
+def build_series(cells, sdtype, labels, name=None, backing=None):
     vals = [py_cell(c) for c in cells]
-    idx = None if labels is None or labels["t"] == "default" else labels["v"]
+    idx = make_index(labels)
     kinds = {c[0] for c in cells}
+    if backing is not None and kinds - {"m"}:
+        if backing in ("Int64", "Float64", "boolean"):
+            vals = [None if c[0] == "m" else v for c, v in zip(cells, vals)]
+        return pd.Series(vals, index=idx, dtype=backing, name=name)
     if sdtype is not None and kinds <= {"s", "d", "m"}:
-        return pd.Series(vals, index=idx, dtype=object if sdtype == "object" else "str", name=name)
+        return pd.Series(vals, index=idx, dtype=object if sdtype == "object" else sdtype, name=name)
     if not vals or kinds & {"l"} or kinds == {"m"} and all(c[1] == "none" for c in cells):
         return pd.Series(vals, index=idx, dtype=object, name=name)
     return pd.Series(vals, index=idx, name=name)
@@ -536,8 +635,11 @@ def check_date_classes(cells):
     return bad
 
 
-def observe_series(ser):
-    from torch_frame.utils.infer_stype import infer_series_stype
+def observe_series(ser, call="pos", alias="module"):
+    if alias == "utils":
+        from torch_frame.utils import infer_series_stype          # the public re-export
+    else:
+        from torch_frame.utils.infer_stype import infer_series_stype
     rec = {}
     try:
         nn = ser.dropna()
@@ -551,7 +653,7 @@ def observe_series(ser):
     try:
         with warnings.catch_warnings():
             warnings.simplefilter("ignore")
-            r = infer_series_stype(ser)
+            r = infer_series_stype(ser=ser) if call == "kw" else infer_series_stype(ser)
         rec["ok"] = True
         rec["res"] = None if r is None else str(getattr(r, "value", r))
     except Exception as ex:
@@ -564,28 +666,49 @@ def run(case):
     import logging
     logging.disable(logging.WARNING)
     if case["kind"] == "series":
-        out = {"base": observe_series(build_series(case["cells"], case["sdtype"], None)), "variants": []}
+        rp = case.get("rep") or {"backing": None, "name": None, "call": "pos", "alias": "module"}
+        mk = lambda cells, labels: observe_series(
+            build_series(cells, case["sdtype"], labels, name=rp["name"], backing=rp["backing"]),
+            call=rp["call"], alias=rp["alias"])
+        out = {"base": mk(case["cells"], None), "variants": []}
         bad = check_date_classes(case["cells"])
         if bad:
             out["date_class_mismatch"] = bad
         for v in case["variants"]:
             cells = variant_cells(case["cells"], v)
-            out["variants"].append(observe_series(build_series(cells, case["sdtype"], v["labels"])))
+            out["variants"].append(mk(cells, v["labels"]))
         return out
-    from torch_frame.utils.infer_stype import infer_df_stype
+    rp = case.get("rep") or {"build": "concat", "call": "pos", "alias": "module", "labels": ["str"] * len(case["columns"])}
+    if rp["alias"] == "utils":
+        from torch_frame.utils import infer_df_stype
+    else:
+        from torch_frame.utils.infer_stype import infer_df_stype
+    # the DataFrame's own column labels: the name, an int, or a tuple (a frame may carry any hashable label)
+    def label(j, c):
+        k = rp["labels"][j]
+        return c["name"] if k == "str" else (1000 + j if k == "int" else (c["name"], j))
+    labs = [label(j, c) for j, c in enumerate(case["columns"])]
     sers = [build_series(c["cells"], c["sdtype"], case["labels"], name=c["name"]) for c in case["columns"]]
-    df = pd.concat(sers, axis=1) if sers else pd.DataFrame()
-    df.columns = [c["name"] for c in case["columns"]]
-    out = {"cols": [observe_series(df[c["name"]]) for c in case["columns"]]}
-    out["col_dtypes_kept"] = [str(df[c["name"]].dtype) == str(s.dtype) for c, s in zip(case["columns"], sers)]
+    if rp["build"] == "dict" and sers:
+        df = pd.DataFrame({lab: s for lab, s in zip(labs, sers)})
+    elif rp["build"] == "assign" and sers:
+        df = pd.DataFrame(index=sers[0].index)
+        for lab, s in zip(labs, sers):
+            df[lab] = s                     # equal index: no realignment
+    else:
+        df = pd.concat(sers, axis=1) if sers else pd.DataFrame()
+        df.columns = pd.Index(labs, tupleize_cols=False) if sers else df.columns
+    out = {"cols": [observe_series(df[lab]) for lab in labs]}
+    out["col_dtypes_kept"] = [str(df[lab].dtype) == str(s.dtype) for lab, s in zip(labs, sers)]
     try:
         with warnings.catch_warnings():
             warnings.simplefilter("ignore")
-            r = infer_df_stype(df)
+            r = infer_df_stype(df=df) if rp["call"] == "kw" else infer_df_stype(df)
         out["ok"] = True
         # a dict: its iteration order is not part of the property -> canonical order = column order of the case
         pos = {c["name"]: i for i, c in enumerate(case["columns"])}
-        items = [[str(k), str(getattr(v, "value", v))] for k, v in r.items()]
+        back = {repr(lab): c["name"] for lab, c in zip(labs, case["columns"])}
+        items = [[back.get(repr(k), repr(k)), str(getattr(v, "value", v))] for k, v in r.items()]
         out["items"] = sorted(items, key=lambda it: pos.get(it[0], len(pos)))
         out["n_items"] = len(r)
     except Exception as ex:
@@ -829,6 +952,14 @@ def stats(cases, obss):
         d["total"] += 1
         if c["kind"] == "df":
             d["df_cases"] += 1
+            rp = c.get("rep")
+            if rp:
+                for key, val in (("df_build", rp["build"]), ("df_call", rp["call"]), ("df_alias", rp["alias"])):
+                    d.setdefault("rep_" + key, {})
+                    d["rep_" + key][val] = d["rep_" + key].get(val, 0) + 1
+                d.setdefault("rep_df_column_labels", {})
+                for k in rp["labels"]:
+                    d["rep_df_column_labels"][k] = d["rep_df_column_labels"].get(k, 0) + 1
             nrows = len(c["columns"][0]["cells"]) if c["columns"] else 0
             blank = sum(1 for i in range(nrows) if all(col["cells"][i][0] == "m" for col in c["columns"]))
             if blank and any(any(x[0] != "m" for x in col["cells"]) for col in c["columns"]):
@@ -849,6 +980,16 @@ def stats(cases, obss):
             d["raised"] += 1
         if c["sdtype"]:
             d["string_dtypes"][c["sdtype"]] = d["string_dtypes"].get(c["sdtype"], 0) + 1
+        rp = c.get("rep")
+        if rp:
+            for key, val in (("backing", rp["backing"] or "default"), ("series_name", type(rp["name"]).__name__),
+                             ("call", rp["call"]), ("alias", rp["alias"])):
+                d.setdefault("rep_" + key, {})
+                d["rep_" + key][val] = d["rep_" + key].get(val, 0) + 1
+        d.setdefault("missing_kinds", {})
+        for x in c["cells"] + [["m", a[1]] for v in c["variants"] for a in v["add"]]:
+            if x[0] == "m":
+                d["missing_kinds"][x[1]] = d["missing_kinds"].get(x[1], 0) + 1
         if ref_infer(c["cells"]) is OUT:
             d["outside_property"] += 1
         kinds_ = {x[0] for x in c["cells"]}
@@ -890,10 +1031,19 @@ def sanity(cases, obss):
               "sequence_numerical", "None"):
         if d["results"].get(r, 0) == 0:
             probs.append(f"result {r} never observed")
-    for sd in ("object", "str"):
+    for sd in ("object", "str", "string"):
         if d["string_dtypes"].get(sd, 0) == 0:
             probs.append(f"string dtype {sd} never drawn")
-    for lab in ("default", "offset", "perm", "string", "dup"):
+    need = {"rep_backing": ("default", "Int64", "int32", "int8", "uint8", "Float64", "float32", "boolean"),
+            "rep_series_name": ("NoneType", "str", "int"), "rep_call": ("pos", "kw"), "rep_alias": ("module", "utils"),
+            "rep_df_build": ("concat", "dict", "assign"), "rep_df_call": ("pos", "kw"),
+            "rep_df_alias": ("module", "utils"), "rep_df_column_labels": ("str", "int", "tuple"),
+            "missing_kinds": ("none", "nan", "fnan", "na")}
+    for key, vals in need.items():
+        for v in vals:
+            if d.get(key, {}).get(v, 0) == 0:
+                probs.append(f"{key}: {v} never drawn")
+    for lab in ("default", "offset", "perm", "string", "dup", "multi", "datetime", "float"):
         if d["labelings"].get(lab, 0) == 0:
             probs.append(f"index labeling {lab} never drawn")
     for k in ("permuted", "labels", "missing"):
@@ -991,10 +1141,10 @@ def _in_model_domain(cells):
     return ref_infer(cells) is not OUT or kinds == {"f"}      # integral floats + NaN: modelled, not judged
 
 
-def coq_series_term(cells, o):
+def coq_series_term(cells, o, preds=True):
     cl = C.clist(cells, coq_cell)
     t = f"outcome_eqb (infer_series_stype {cl}) {coq_outcome(o)}"
-    if "preds" in o:
+    if "preds" in o and preds:
         t += f" && bools_eqb (dtype_preds {cl}) {C.clist(o['preds'], C.cbool)}"
     return t
 
@@ -1005,9 +1155,12 @@ def coq_term(case, obs):
     if case["kind"] == "series":
         if not _in_model_domain(case["cells"]):
             return None
-        terms = [coq_series_term(case["cells"], obs["base"])]
+        # the dtype predicates are those of pandas' DEFAULT representation; with a nullable / narrow backing
+        # only the outcome is compared
+        dp = not (case.get("rep") or {}).get("backing")
+        terms = [coq_series_term(case["cells"], obs["base"], dp)]
         for v, o in zip(case["variants"], obs["variants"]):
-            terms.append(coq_series_term(variant_cells(case["cells"], v), o))
+            terms.append(coq_series_term(variant_cells(case["cells"], v), o, dp))
         return "(" + " && ".join(terms) + ")"
     if any(not _in_model_domain(c["cells"]) for c in case["columns"]):
         return None
